@@ -155,7 +155,11 @@ class Check:
             self.broken.append(("forbidden-token", "\n".join(bad)))
         targets = [L["props_module"]] + L.get("extra_modules", [])
         ok_props = True
+        # One lock around fact regeneration, builds and the audit: the regenerated Gen/*.lean files and
+        # the driver executable live in the shared lake project, and a concurrent run of the same
+        # property against ANOTHER tree (mutant testing) must not swap them underneath this run.
         with Lock(os.path.join(LEAN, ".build.lock")):
+            self.gen_facts()
             cmd = ["lake", "build"] + targets
             self.lean_cmds.append("cd lean && " + " ".join(cmd))
             rc, out = sh(cmd, cwd=LEAN, timeout=3000)
@@ -169,14 +173,18 @@ class Check:
                 self.exe_ok = rc2 == 0
                 if rc2 != 0:
                     self.broken.append(("lean-model-driver", "the model driver no longer builds:\n" + out2[-3000:]))
-        if ok_props:
-            self.audit()
-            if self.tier == "thorough" and not os.environ.get("VERIF_NO_LEANCHECKER"):
-                cmd = ["lake", "env", "leanchecker", L["props_module"]]
-                self.lean_cmds.append("cd lean && " + " ".join(cmd))
-                rc, out = sh(cmd, cwd=LEAN, timeout=3000)
-                if rc != 0:
-                    self.broken.append(("leanchecker", out[-3000:]))
+                else:
+                    # private copy: this run's driver is the one built from this run's facts
+                    self.exe_path = os.path.join(self.work, exe)
+                    shutil.copy2(os.path.join(LEAN, ".lake", "build", "bin", exe), self.exe_path)
+            if ok_props:
+                self.audit()
+                if self.tier == "thorough" and not os.environ.get("VERIF_NO_LEANCHECKER"):
+                    cmd = ["lake", "env", "leanchecker", L["props_module"]]
+                    self.lean_cmds.append("cd lean && " + " ".join(cmd))
+                    rc, out = sh(cmd, cwd=LEAN, timeout=3000)
+                    if rc != 0:
+                        self.broken.append(("leanchecker", out[-3000:]))
         return ok_props
 
     def describe_lean_failure(self, out):
@@ -314,7 +322,7 @@ run_cmd do
 
     def drive(self, trace_lines):
         """pipe trace through the Lean model driver; returns parsed verdicts"""
-        exe = os.path.join(LEAN, ".lake", "build", "bin", self.cfg["lean"]["driver_exe"])
+        exe = getattr(self, "exe_path", None) or os.path.join(LEAN, ".lake", "build", "bin", self.cfg["lean"]["driver_exe"])
         data = ("\n".join(trace_lines) + "\n").encode()
         p = subprocess.run([exe], input=data, stdout=subprocess.PIPE, stderr=subprocess.STDOUT, timeout=3600)
         out = p.stdout.decode("utf-8", "replace")
@@ -523,7 +531,6 @@ run_cmd do
             shutil.rmtree(self.work, ignore_errors=True)
 
     def _run(self):
-        facts_ok = self.gen_facts()
         self.lean()
         can_run = getattr(self, "exe_ok", False) and self.build_harness()
         budget = 60 if self.tier == "quick" else 300
@@ -603,7 +610,7 @@ run_cmd do
     # ------------------------------------------------------------------ replay mode
     def replay(self, path):
         r = json.load(open(path)) if path.endswith(".json") else {"ops": open(path).read().split("\n")}
-        self.gen_facts(); self.lean()
+        self.lean()
         if not (getattr(self, "exe_ok", False) and self.build_harness()):
             log("cannot build"); [log(b) for b in self.broken]; return 2
         if not r.get("ops"):
